@@ -462,9 +462,10 @@ impl<T: InternalSourceController<MeasurementDelay = NtpDuration>> SourceControll
                     .handle_measurement(InternalMeasurement {
                         delay: (measurement.receiver_ts - last_outgoing.sender_ts)
                             - (measurement.sender_ts - last_outgoing.receiver_ts),
-                        offset: ((last_outgoing.receiver_ts - last_outgoing.sender_ts)
-                            + (measurement.sender_ts - measurement.receiver_ts))
-                            / 2,
+                        // Halve before adding: each difference is representable, but
+                        // their sum saturates once the clocks are more than 2^30 s apart.
+                        offset: (last_outgoing.receiver_ts - last_outgoing.sender_ts) / 2
+                            + (measurement.sender_ts - measurement.receiver_ts) / 2,
                         localtime: measurement.receiver_ts,
                         root_delay: measurement.root_delay,
                         root_dispersion: measurement.root_dispersion,
